@@ -155,6 +155,16 @@ func agwpe.(*demux).Frames(d, bufSize, filter) (filtered, cancel)
   call agwpe.newFramesReq requires callers-buffer-and-filter: $0 == bufSize && same($1.kinds, filter.kinds) && $1.port == filter.port && $1.call == filter.call && $1.to == filter.to
   at send requires registers-a-repeating-request-while-open: !d.closed && $0 == d.requests && !$1.once
   at return#1 requires nothing-when-closed: d.closed
+  at close requires closed-answer-only-when-closed: d.closed
+
+# chaining never crashes: on a closed source the next stage is handed out closed
+func agwpe.(*demux).Chain(d, filter) (next)
+  props C13
+  ensures stage: next != nil
+  call agwpe.(*demux).Frames requires forwards-what-the-filter-wants: same($2.kinds, filter.kinds) && $2.port == filter.port && $2.call == filter.call && $2.to == filter.to
+  call agwpe.(*demux).Close requires closed-stage-only-for-a-closed-source: gSrcClosed
+  call agwpe.(*demux).isClosed set gSrcClosed := $r0
+ghost var gSrcClosed bool
 
 # the chain forwarder passes every frame it received on, and stops only when its source or the
 # next stage is closed
@@ -343,10 +353,11 @@ func agwpe.(*Conn).Close(c) (err)
 # a new connection object belongs to this port and carries the station's and the peer's callsigns
 func agwpe.newConn(p, dstCall, via) (c)
   props C13
-  requires port: PortOK(p)
+  requires port: p != nil && PortOK(p)
   ensures conn: c != nil && c.p == p && c.demux != nil && same(c.srcCall, p.mycall) && same(c.dstCall, dstCall) && same(c.via, via) && !c.inbound && !c.closing && len(c.rest) == 0
   call agwpe.(*demux).Chain requires only-this-peers-frames: $1.call == agwpe.callsignFromString(dstCall) && $1.port == nil && iszero($1.to) && len($1.kinds) == 0
-  call agwpe.(*demux).Frames requires connected-data-frames: len($2.kinds) == 1 && $2.kinds[0] == kindConnectedData && $1 >= 1
+  call agwpe.(*demux).Frames requires connected-data-frames: len($2.kinds) == 1 && $2.port == nil && iszero($2.call) && iszero($2.to) && $1 >= 1
+  at store#3 requires connected-data-kind: $0 == kindConnectedData
 
 # the watcher started by newConn: tears the connection down only when a disconnect frame arrived
 func agwpe.newConn$1() ()
@@ -379,8 +390,9 @@ func agwpe.(*Port).handleInbound$1() ()
   props C13
   nosafety
   loop 0 reads-input watcher loop: ends when the frame queue is closed (not a remote-input loop)
-  requires port: PortOK(p)
-  call agwpe.(*demux).Frames requires connect-frames-only: len($2.kinds) == 1 && $2.kinds[0] == kindConnect
+  requires port: p != nil && PortOK(p)
+  call agwpe.(*demux).Frames requires connect-frames-only: len($2.kinds) == 1 && $1 >= 1
+  at store#1 requires connect-kind: $0 == kindConnect
   call agwpe.(*demux).Frames requires addressed-to-this-station: $2.to == agwpe.callsignFromString(p.mycall) && $2.port == nil && iszero($2.call)
   call bytes.HasPrefix set gInboundBanner := $r0
   call agwpe.newConn requires only-remote-initiated-connects: gInboundBanner && $0 == p
